@@ -25,7 +25,7 @@ RULE = ('case = (container-bearing hint from a dedicated grammar: sequence / set
         'variant: conforming, every-item-violating, first-item-violating, or all containers conforming next to a violating sibling in a fixed tuple; draw). Each case is swept over sizes 1,2,3,10,1000,20000 '
         '(100000 thorough) of the top-level container (inner levels min(n,3)). Oracle: item reads (getitem calls + items handed out by '
         'iterators) and repr() calls are identical at every size and <= 1 per container level (2 per mapping level) while deciding, <= 2x '
-        'that when a rejection is described; non-collection iterables are never iterated. non-trivial = nesting >= 2 (the sweep always '
+        'that when a rejection is described; non-collection iterables are never iterated. Item hints include user generics (class G(list[int]), two unerased bases, dict[str, int]). non-trivial = nesting >= 2 (the sweep always '
         'reaches size >= 1000); distinct by canonical JSON')
 ASSUMPTIONS = [
     '__len__, isinstance hooks, __hash__, __eq__ and repr() are allowed protocol calls; what is bounded is item reads',
